@@ -2,7 +2,7 @@
    nor on how the compressor cuts its output into write calls:
    (1) whatever the write calls, the compressor is handed the filtered scanlines of the whole-image path (encode_image);
    (2) whatever the bursts of the compressor, the IDAT chunks are its output cut into pieces of the chunk size. *)
-From PngV Require Import Base.Bytes Spec.FilterSpec Gen.GenPaeth Model.Filter Model.EncodePipeline Model.StreamWriterBuf Proofs.EncodePipelineProofs.
+From PngV Require Import Base.Bytes Spec.FilterSpec Gen.GenPaeth Model.Filter Model.Pipeline Model.EncodePipeline Model.StreamWriterBuf Proofs.FilterProofs Proofs.EncodePipelineProofs.
 
 Lemma firstn_app_short' {A} (a b : list A) n : (n <= length a)%nat -> firstn n (a ++ b) = firstn n a.
 Proof. revert a. induction n as [|n IH]; intros [|x a] H; cbn in *; try reflexivity; try lia. rewrite IH by lia. reflexivity. Qed.
@@ -476,3 +476,36 @@ Qed.
 (* non-vacuity: 7 bytes in bursts of 2, 4 and 1 through a 3-byte chunk buffer *)
 Example chunk_writer_demo : cw_run (mk_cw 3 []) [[1; 2]; [3; 4; 5; 6]; [7]] = Some [[1; 2; 3]; [4; 5; 6]; [7]].
 Proof. vm_compute. reflexivity. Qed.
+
+(* ================================================================== both layers, the compressor between them, and the decoder's row pipeline *)
+(* THE ROUND TRIP THROUGH THE STREAM WRITER (still image).  [K] is the compressor and [I] the inflater (external: only I (K x) = Some x is
+   assumed, of the one stream this image produces); [pieces] is any way of cutting the image bytes into write calls; [bursts] is any way in which
+   the compressor delivers its output to the chunk layer; [cap] is the chunk size.  Then: the stream writer takes all the pieces; the payloads
+   of the IDAT chunks that reach the sink, concatenated and inflated, are the scanline stream; and the decoder's row pipeline turns it back into
+   exactly the rows that were given, with nothing left over. *)
+Theorem stream_writer_round_trip (P : Z -> Z -> Z -> Z) (K : list Z -> list Z) (I : list Z -> option (list Z)) :
+  (forall a b c, byte_ok a -> byte_ok b -> byte_ok c -> P a b c = paeth_spec a b c) ->
+  forall m bpp k rows pieces bursts cap,
+    (0 < bpp)%nat -> (0 < k)%nat -> (0 < cap)%nat ->
+    Forall (fun r => length r = (k * bpp)%nat /\ bytes_ok r) rows ->
+    concat pieces = concat rows ->
+    exists s' stream chunks,
+      sw_run m bpp (sw_init (k * bpp) (length rows)) pieces = Some (s', stream) /\ sw_left s' = 0%nat /\ sw_cur s' = [] /\
+      (concat bursts = K stream -> I (K stream) = Some stream ->
+       cw_run (mk_cw cap []) bursts = Some chunks /\
+       Forall (fun c => (1 <= length c <= cap)%nat) chunks /\
+       I (concat chunks) = Some stream /\
+       unfilter_rows P bpp (k * bpp) (length rows) [] stream = Ok (rows, [])).
+Proof.
+  intros HP m bpp k rows pieces bursts cap Hbpp Hk Hcap Hf Ec.
+  assert (Hl : (0 < k * bpp)%nat) by nia.
+  assert (Hf' : Forall (fun r => length r = (k * bpp)%nat) rows) by (eapply Forall_impl; [|exact Hf]; cbn; tauto).
+  pose proof (stream_writer_any_split m bpp (k * bpp) rows pieces Hl Hf' Ec) as S.
+  destruct (encode_total m bpp k Hbpp Hk rows (zeros (k * bpp)) Hf (zeros_length _) (zeros_bytes _)) as [stream Es].
+  unfold encode_image in S. rewrite Es in S.
+  exists (mk_sw (last rows (zeros (k * bpp))) [] (k * bpp) 0), stream, (chunks_of (length (concat bursts)) cap (concat bursts)).
+  split; [exact S|]. split; [reflexivity|]. split; [reflexivity|].
+  intros Eb Ei. split; [apply chunk_writer_any_bursts; exact Hcap|]. split; [apply chunks_sizes; [exact Hcap | lia]|].
+  split; [rewrite chunks_concat by (try exact Hcap; lia); rewrite Eb; exact Ei|].
+  apply (encode_decode_rows P HP m bpp k rows stream Hbpp Hk Hf). unfold encode_image. exact Es.
+Qed.
